@@ -7,6 +7,7 @@ import (
 	"github.com/aperturerobotics/bifrost/peer"
 	"github.com/aperturerobotics/bifrost/protocol"
 	"github.com/aperturerobotics/controllerbus/directive"
+	"github.com/sirupsen/logrus"
 	rt "github.com/aperturerobotics/bifrost/zz_verifrt"
 )
 
@@ -40,7 +41,7 @@ func c34Stream() (link.HandleMountedStream, string, peer.ID, peer.ID) {
 // VerifC34Solicit: the solicitation controller takes only its control protocol and solicited
 // stream protocol ids.
 func VerifC34Solicit() {
-	c := &Controller{}
+	c := &Controller{le: logrus.NewEntry(logrus.New()), }
 	var pid string
 	switch rt.Choose("kind", 3) {
 	case 0:
